@@ -263,6 +263,16 @@ def run(mon: Monitor, tier: str, seed: int, shard: int, nshards: int) -> None:
     install(mon)
     try:
         rng = random.Random(seed * 1000 + shard + 11)
+        # earlier history in the same process: somebody asked for authority-axis-order transformers (a documented public call) for half of the CRS pairs
+        # before any output grid was computed; whatever is cached along the way must not leak into the x/y-order requests made below
+        from odc.geo.crs import CRS
+
+        names = [e[0] for e in gen.CRS_WINDOWS]
+        for a_ in names:
+            for b_ in names:
+                if a_ != b_ and rng.random() < 0.5:
+                    call(CRS(a_).transformer_to_crs, CRS(b_), always_xy=False)
+                    mon.obs["native_axis_order_transformers_requested_first"] += 1
         for _ in range(550 if tier == "quick" else 12000):
             r = random.Random(rng.getrandbits(48))
             try:
